@@ -45,7 +45,7 @@ CHECKS.update({
  "C15": other("Single-character edits of sentences, random text, unbalanced and very deep nesting: only FilterSyntaxError with in-range offset/length, accepted filters have valid attributes and re-parse from their own text; two known findings pinned by tests.", "mutation testing of the parser + totality/bounds/validity oracle + model/implementation correspondence (totality theorem pending)"),
  "C16": other("Valid schema descriptions of the three kinds are printed and re-parsed; the text is also parsed by an independent RFC 4512 reference parser.", "print/parse round-trip oracle + reference parser + model/implementation correspondence (qdstring round-trip theorem pending)"),
  "C17": other("Sentences of the three RFC 4512 grammars with all spacing / list-form / escape-case choices, plus mutated strings for the totality clause.", "grammar-sentence generation + reference parser + model/implementation correspondence"),
- "C18": other("Adversarial input families for every parser and for receive are timed at doubling sizes (absolute and growth thresholds); the regular expressions are regenerated from the source on every run.", "CPU-time growth measurement on adversarial families (no theorem: a cost semantics for the backtracking matcher and an ambiguity certificate were not built)"),
+ "C18": other("Partial theorems + timing experiment. Coq theorems (no axioms) bound, for every input, the number of iterations of every hand-written loop (receive's message loop, the filter parser's loops, the extension and re.sub loops of the schema parsers: each stops within the length of what it scans plus one) and the recursion depth of the backtracking matcher (pattern size + input length, for every pattern). NOT proved: the number of steps of the matcher, i.e. the time of one regular-expression match - a cost semantics for backtracking on failing inputs and an ambiguity certificate per pattern were not built. That part, and the tie of cost to the implementation, is a timing experiment: adversarial input families for every parser and for receive are timed at doubling sizes (absolute and growth thresholds); the regular expressions are regenerated from the source on every run.", "partial Coq theorems (iteration and depth bounds) + CPU-time growth measurement on adversarial families"),
  "C19": other("Pairs of session histories run interleaved and alone must give identical transcripts; custom control / filter / credential registration is exercised with distinct type sets per session.", "interleaved-vs-isolated transcript comparison + registration oracle + two independent model instances"),
 })
 
